@@ -86,6 +86,36 @@ func jobsFor(prop, tier string) []Job {
 			add("iter", fmt.Sprintf("btree%d", m), 30, map[string]string{"c": "btree"}, map[string]int{"m": m, "n": pick(10, 16), "rank": 1})
 		}
 		add("iter", "btree5", 40, map[string]string{"c": "btree"}, map[string]int{"m": 5, "n": 18, "rank": 1})
+	case "C13":
+		u := pick(3, 4)
+		add("setalg", fmt.Sprintf("hashset.u%d", u), 1, map[string]string{"c": "hashset"}, map[string]int{"u": u})
+		add("setalg", fmt.Sprintf("linkedhashset.u%d", u), 9, map[string]string{"c": "linkedhashset"}, map[string]int{"u": u})
+		for _, c := range []string{"nat", "rev", "coarse"} {
+			uu := u + 1
+			if c == "coarse" {
+				uu = u + 2
+			}
+			add("setalg", fmt.Sprintf("treeset.%s.u%d", c, uu), 5, map[string]string{"c": "treeset", "cmp": c}, map[string]int{"u": uu})
+		}
+	case "C14":
+		n := pick(4, 5)
+		for _, c := range []string{"arraylist", "singlylinkedlist", "doublylinkedlist"} {
+			add("enum", fmt.Sprintf("%s.n%d", c, n), 10, map[string]string{"c": c}, map[string]int{"n": n, "u": 3, "maxn": n})
+		}
+		add("enum", fmt.Sprintf("linkedhashset.u%d", n), 5, map[string]string{"c": "linkedhashset"}, map[string]int{"u": n, "maxn": n})
+		for _, c := range []string{"nat", "rev", "coarse"} {
+			add("enum", fmt.Sprintf("treeset.%s.u%d", c, n+1), 5, map[string]string{"c": "treeset", "cmp": c}, map[string]int{"u": n + 1, "maxn": n + 1})
+			add("enum", fmt.Sprintf("treemap.%s.u%d", c, n), 8, map[string]string{"c": "treemap", "cmp": c}, map[string]int{"u": n, "vu": 2, "maxn": n})
+		}
+		add("enum", fmt.Sprintf("linkedhashmap.u%d", n), 8, map[string]string{"c": "linkedhashmap"}, map[string]int{"u": n, "vu": 2, "maxn": n})
+		for _, kc := range []string{"nat", "rev", "coarse"} {
+			for _, vc := range []string{"nat", "rev", "coarse"} {
+				if kc != vc && kc != "nat" && vc != "nat" {
+					continue
+				}
+				add("enum", fmt.Sprintf("treebidimap.%s.%s.u%d", kc, vc, n), 8, map[string]string{"c": "treebidimap", "cmp": kc, "vcmp": vc}, map[string]int{"u": n, "vu": pick(3, 4), "maxn": n})
+			}
+		}
 	case "C09":
 		u := pick(5, 6)
 		add("linked", fmt.Sprintf("linkedhashmap.u%d", u), 2, map[string]string{"c": "linkedhashmap"}, map[string]int{"u": u})
